@@ -366,7 +366,21 @@ def check(ctx):
             if key:
                 stores.setdefault(key, []).append((v, s))
     allowed = _result_keys(OR)
+    # fields handed to dict.update(...) never pass the item setter of the result class (which copies what it stores)
+    via_update = {}
+    for n in ast.walk(sa.node):
+        if isinstance(n, ast.Call) and isinstance(n.func, ast.Attribute) and n.func.attr == "update" and canon(n.func.value) in ("self", "super()") and n.args and isinstance(n.args[0], ast.Dict):
+            for k_ in n.args[0].keys:
+                if const_str(k_):
+                    via_update[const_str(k_)] = n
+        if isinstance(n, ast.Call) and isinstance(n.func, ast.Attribute) and n.func.attr == "update" and canon(n.func.value) in ("self", "super()"):
+            for kw_ in n.keywords:
+                if kw_.arg:
+                    via_update[kw_.arg] = n
     for key, want in table.items():
+        if key not in stores and key in via_update:
+            ctx.fail(sa, via_update[key], f"result field '{key}' is stored with dict.update(), which bypasses the result's item setter: the value is not copied, the result shares the object with the optimizer", construct=f"result[{key}] via update()")
+            continue
         if key not in stores:
             ctx.missing(sa, f"result field '{key}'")
             continue
